@@ -13,6 +13,10 @@ class Killed(BaseException):
     """raised inside a parked thread to unwind it at the end of a run"""
 
 
+class Halt(BaseException):
+    """os._exit was called: the process is gone"""
+
+
 class MThread:
     def __init__(self, sched, name, role, fn, args):
         self.sched = sched
@@ -36,7 +40,7 @@ class MThread:
                 raise Killed()
             self.state = 'running'
             self.fn(*self.args)
-        except Killed:
+        except (Killed, Halt):
             pass
         except BaseException as e:   # noqa: a crash of a managed thread is an observable
             self.exc = e
@@ -65,6 +69,7 @@ class Sched:
         self.step_no = 0
         self.choices = []           # (index chosen, number enabled) per branching step
         self.counter = 0
+        self.halted = False
 
     # ------------------------------------------------------------ thread management
     def spawn(self, name, role, fn, args=()):
@@ -116,12 +121,14 @@ class Sched:
         the chooser (their steps commute with everything the scenario observes)."""
         n = 0
         while n < max_steps:
+            if self.halted:
+                return 'exited'
             en = self.enabled_threads()
             if not en:
                 return 'quiescent'
             pick = None
             for t in en:
-                if t.role in eager:
+                if (eager(t) if callable(eager) else t.role in eager):
                     pick = t
                     break
             if pick is None:
@@ -175,6 +182,65 @@ class RandomChooser:
             c = en.index(t)
         self.taken.append((c, len(en)))
         return en[c]
+
+
+class BoundedChooser:
+    """choices from a list, with preemption bounding: switching away from a thread
+    that could continue costs one unit of `bound`; when the budget is exhausted the
+    running thread continues.  Option 0 is always "continue the last thread" when it
+    is enabled.  Records (choice, number of options) for dfs_schedules."""
+
+    def __init__(self, choices, bound):
+        self.choices = list(choices)
+        self.k = 0
+        self.budget = bound
+        self.last = None
+        self.taken = []
+
+    def __call__(self, en, sched):
+        last = self.last if self.last in en else None
+        if last is not None:
+            opts = [last] + [t for t in en if t is not last]
+            if self.budget <= 0:
+                opts = [last]
+        else:
+            opts = list(en)
+        c = self.choices[self.k] if self.k < len(self.choices) else 0
+        self.k += 1
+        c = c % len(opts)
+        self.taken.append((c, len(opts)))
+        pick = opts[c]
+        if last is not None and pick is not last:
+            self.budget -= 1
+        self.last = pick
+        return pick
+
+
+class PCTChooser:
+    """random thread priorities with d priority-change points (PCT): the enabled
+    thread of highest priority runs; good at ordering bugs of small depth"""
+
+    def __init__(self, rng, depth=3, horizon=150):
+        self.rng = rng
+        self.prio = {}
+        self.change = sorted(rng.randrange(1, horizon) for _ in range(depth))
+        self.n = 0
+        self.low = 0
+        self.taken = []
+
+    def __call__(self, en, sched):
+        self.n += 1
+        for t in en:
+            if t.name not in self.prio:
+                self.prio[t.name] = self.rng.random() + 1.0
+        pick = max(en, key=lambda t: self.prio[t.name])
+        if self.change and self.n >= self.change[0]:
+            self.change.pop(0)
+            self.low -= 1
+            self.prio[pick.name] = self.low
+            pick = max(en, key=lambda t: self.prio[t.name])
+        self.taken.append((en.index(pick), len(en)))
+        return pick
 
 
 def dfs_schedules(run_one, max_runs=None):
